@@ -237,4 +237,29 @@ theorem C03_cex_same_file_stem_esm :
     Path.specGood true ["w".toList] ["w".toList, "a.js.ts".toList] "./a.js.js".toList = true ∧
     Path.isSameFile "/w/a.ts".toList "./a.js.js".toList = true := by decide
 
+
+/-- **A file never imports from itself, under any spelling of its own path** (no ES-module imports): for every
+importing file `…/ff.ts` and every dependency path that normalises to the same file — relative, absolute,
+with dot segments, at any depth — `import_path` returns `./ff` and the `is_same_file` test skips it. -/
+theorem C03_self_import_skipped (cwd frm imp dir p b ff : Str) (fd : List Str)
+    (hdir : Path.parent frm = some dir) (hfn : Path.fileName frm = some (ff ++ Path.dotTs))
+    (hp : Path.absolute cwd imp = .ok p) (hb : Path.absolute cwd dir = .ok b)
+    (hpc : Path.components p = Comp.root :: Path.N (fd ++ [ff ++ Path.dotTs]))
+    (hbc : Path.components b = Comp.root :: Path.N fd)
+    (hff : ff ≠ []) (hffs : '/' ∉ ff)
+    (hts : Text.endsWith Path.dotTs ff = false) (hjs : Text.endsWith Path.dotJs ff = false) :
+    Path.importPath false cwd frm imp = some (.ok (['.', '/'] ++ ff)) ∧
+    Path.isSameFile frm (['.', '/'] ++ ff) = true :=
+  Path.self_import_skipped cwd frm imp dir p b ff fd hdir hfn hp hb hpc hbc hff hffs hts hjs
+
+/-- non-vacuity: one file under two spellings -/
+example : Path.importPath false "/w".toList "./bindings/x/../a/A.ts".toList "bindings//a/./A.ts".toList
+      = some (.ok "./A".toList) ∧
+    Path.isSameFile "./bindings/x/../a/A.ts".toList "./A".toList = true :=
+  C03_self_import_skipped "/w".toList "./bindings/x/../a/A.ts".toList "bindings//a/./A.ts".toList
+    "./bindings/x/../a".toList "/w/bindings/a/A.ts".toList "/w/bindings/a".toList "A".toList
+    ["w".toList, "bindings".toList, "a".toList]
+    (by decide) (by decide) (by decide) (by decide) (by decide) (by decide) (by decide) (by decide)
+    (by decide) (by decide)
+
 end TsRs
